@@ -314,6 +314,9 @@ type c19Fault struct {
 	Partition int32
 	Code      int16
 	hits      int
+	// OnlyEarliest: of the several lookups of the partition in one request (first offset, last offset,
+	// times: one sub-request each) only the first-offset lookup is answered with the error
+	OnlyEarliest bool
 }
 
 type c19Env struct {
@@ -424,6 +427,9 @@ func (e *c19Env) script(rc *fakecluster.ReqCtx) *fakecluster.Action {
 				}
 				for _, p := range refcodec.Arr(tm["Partitions"]) {
 					if int32(refcodec.Int(refcodec.Map(p)["PartitionIndex"])) == f.Partition {
+						if f.OnlyEarliest && refcodec.Int(refcodec.Map(p)["Timestamp"]) != -2 {
+							continue
+						}
 						e.mu.Lock()
 						f.hits++
 						e.mu.Unlock()
